@@ -38,8 +38,9 @@ func checkC03(run *Run, res *Result) {
 	cfg := &run.Cfg
 	type key struct{ m, vb int }
 	fifo := map[key][]emitted{}
-	open := map[key]string{}   // open stream id
-	rolled := map[key]uint64{} // F after a rollback reopen (events <= F are filtered)
+	tail := map[key][]emitted{} // emitted on a stream the node has ended since
+	open := map[key]string{}    // open stream id
+	rolled := map[key]uint64{}  // F after a rollback reopen (events <= F are filtered)
 	lastStartFail := map[key]uint64{}
 	lastEmitStep := map[int]int{} // conn-less: member -> step of last emit, for the multi-connection probe
 	closing := map[int]bool{}
@@ -53,6 +54,7 @@ func checkC03(run *Run, res *Result) {
 			if e.S2 == "ok" {
 				open[k] = e.ID
 				fifo[k] = nil
+				tail[k] = nil
 				if f, ok := lastStartFail[k]; ok {
 					rolled[k] = f
 					delete(lastStartFail, k)
@@ -74,7 +76,10 @@ func checkC03(run *Run, res *Result) {
 			}
 			if e.S == "end" {
 				delete(open, k)
-				fifo[k] = nil // events of an ended stream may or may not have been delivered (C12/C13)
+				// events of an ended stream may or may not be delivered (C12/C13) - but what was emitted before the end in
+				// the same burst may still arrive, in order, after the node's end event
+				tail[k] = fifo[k]
+				fifo[k] = nil
 				continue
 			}
 			if !isDocKind(e.S) {
@@ -123,6 +128,23 @@ func checkC03(run *Run, res *Result) {
 			deliveredOff[e.ID], deliveredSt[e.ID] = e.Off, e.St
 			q := fifo[k]
 			sig := fmt.Sprintf("vb=%d seq=%d", e.Vb, e.Seq)
+			if len(q) == 0 && len(tail[k]) > 0 && open[k] == "" {
+				// the stream has ended: accept the rest of what it had emitted, in order (skipping is allowed there)
+				t := tail[k]
+				found := -1
+				for j := range t {
+					if t[j].ev.Seq == e.Seq {
+						found = j
+						break
+					}
+				}
+				if found >= 0 {
+					compareFields(res, cfg, t[found].ev, e)
+					tail[k] = t[found+1:]
+					res.probe("delivered-after-the-node-ended-the-stream")
+					continue
+				}
+			}
 			if len(q) == 0 {
 				res.violate("C03", "R1-unexpected-event", e.N, sig,
 					"member %d vb %d: ConsumeEvent(seq=%d key=%s kind=%s) but the node has no undelivered emitted event for this stream (duplicate, filtered or invented)",
